@@ -595,6 +595,19 @@ def spooled_written(f):
     return file_stored(f._path)
 
 
+def _m_spooled_written(interp, args, kwargs):
+    """proof level: the ghost contents, WITHOUT the flush the native observation needs -- an observation must not
+    change the (ghost) state it observes: whether the file object has been flushed matters when a child process
+    is given the file (T14)"""
+    f = _res(interp, args[0])
+    if f._path is None:
+        return interp.call(sio_value, [f._file])
+    return interp.call(file_stored, [f._path])
+
+
+M.model(spooled_written, _m_spooled_written)
+
+
 def spooled_position(f):
     """the position, in characters of what has been written"""
     return sio_position(f._file) if f._path is None else file_position(f._file)
